@@ -32,7 +32,11 @@ def main():
                 shutil.copy(s, os.path.join(d, sub))
         ap = subprocess.run(["git", "apply", "--whitespace=nowarn", os.path.join(src, "patch.diff")], cwd=d, capture_output=True, text=True)
         meta["patch_applies"] = ap.returncode == 0
-        env = dict(os.environ, PYTHONPATH=os.path.join(d, "src"), PYTHONDONTWRITEBYTECODE="1")
+        home = os.path.join(d, "home")
+        os.makedirs(home, exist_ok=True)
+        # tests / demos of changes that keep things on disk must not leave them in the real home or /tmp
+        env = dict(os.environ, PYTHONPATH=os.path.join(d, "src"), PYTHONDONTWRITEBYTECODE="1", HOME=home, XDG_CACHE_HOME=home,
+                   TMPDIR=home, PYAB_CACHE_DIR=os.path.join(home, "pyab-cache"))
         tp = subprocess.run([PY, "-m", "pytest", "-q", "-p", "no:cacheprovider", "tests"], cwd=d, env=env, capture_output=True, text=True, timeout=1800)
         meta["tests_pass_with_patch"] = tp.returncode == 0
         sc = os.path.join(src, "selfcheck.py")
